@@ -1,5 +1,5 @@
 CONSTANTS MaxNodes = 4
- Offs = {0, 1, 3}
+ Offs = {0, 2}
  Sizes = {0, 5}
  Aligns = {1, 4}
  BinLens = {0, 2}
